@@ -52,6 +52,13 @@ func LoadHIDIConfig(path string) (HIDIConfig, error) {
 
 	var config HIDIConfig
 
+	if rawConfig.HIDI.PoolRate <= 0 {
+		return HIDIConfig{}, fmt.Errorf("pool_rate must be greater than 0, got %d", rawConfig.HIDI.PoolRate)
+	}
+	if rawConfig.HIDI.DiscoveryRate <= 0 {
+		return HIDIConfig{}, fmt.Errorf("discovery_rate must be greater than 0, got %d", rawConfig.HIDI.DiscoveryRate)
+	}
+
 	config.HIDI.EVThrottling = time.Second / time.Duration(rawConfig.HIDI.PoolRate)
 	config.HIDI.DiscoveryRate = time.Second / time.Duration(rawConfig.HIDI.DiscoveryRate)
 	config.HIDI.StabilizationPeriod = time.Millisecond * time.Duration(rawConfig.HIDI.StabilizationPeriod)
